@@ -1215,6 +1215,41 @@ func c19Partition(r *Run, ic *iterCopy) []string {
 		}
 	}
 	check("append u.Slice(pos,e)", appended, "the sub-slice [pos, e) of the sequence is appended to the groups in order")
+	// one cut: whatever else is put into a list of reflect.Values on the way is the whole sequence (the one-group
+	// case); a group made by another call - reflect.ValueOf(xs[a:b]) on a typed fast path - is a second way of cutting
+	// that none of the steps above has looked at
+	oneCut, otherCut := true, ""
+	for _, g := range reachFns {
+		for _, b := range g.Blocks {
+			for _, ins := range b.Instrs {
+				st, ok := ins.(*ssa.Store)
+				if !ok || !isReflectValueType(st.Val.Type()) {
+					continue
+				}
+				ia, ok := st.Addr.(*ssa.IndexAddr)
+				if !ok {
+					continue
+				}
+				if _, isAlloc := ia.X.(*ssa.Alloc); !isAlloc {
+					continue
+				}
+				v := st.Val
+				if v == ssa.Value(sl) || fam[v] || fam[nv(v)] || nv(v) == ssa.Value(sl) {
+					continue
+				}
+				if c, isCall := nv(v).(*ssa.Call); isCall {
+					oneCut, otherCut = false, calleeLabel(c)
+				}
+			}
+		}
+	}
+	feats = append(feats, fmt.Sprintf("groupBy.oneCut=%v", oneCut))
+	if oneCut {
+		r.Ok("R4", name, "one cut", pos, "every group is the sub-slice cut by the one Slice call, or the whole sequence")
+	} else {
+		r.Bad("R4", name, "a second way of cutting groups", pos,
+			"a group is made by "+otherCut+" and not by the partition loop: for the values that take that way the groups are cut by rules of their own (the one-group case, the rounded-up size and the clamp are those of the loop only)")
+	}
 	// R5: the array is made addressable before Slice (the panic ledger's proof for this Slice call)
 	addr, _ := newLedger(w, sl.Parent()).sliceable(u, sl.Block())
 	if addr {
